@@ -88,7 +88,8 @@ prop("C09",
           "probe; non-trivial = the script reached the cell's state and delivered the message")
 
 prop("C10",
-     scripts=lambda tier, rnd: S.stop_points() + S.stop_everywhere(rnd, 400 if tier == "thorough" else 60),
+     scripts=lambda tier, rnd: S.stop_points() + S.stop_dial_race(12 if tier == "thorough" else 3) +
+     S.stop_everywhere(rnd, 400 if tier == "thorough" else 60),
      mc=lambda tier: [mc_pair(["openLo", "ka"])] if tier == "quick" else
      [mc_pair(["openLo", "ka", "upd"], dials=2), mc_pair(["openHi", "ka", "notif"], dials=2)],
      nontrivial=lambda s, r: any(e["e"] == "ret" and e["n"] in ("close", "deletePeer") for e in syscheck.events_of(r)),
